@@ -81,14 +81,21 @@ def _strategy():
     @st.composite
     def cases(draw):
         s = draw(G.schema_strategy())
+        family = None
         if draw(st.integers(0, 2)) == 0:
             G.add_weak_family(s, draw)
+        if draw(st.integers(0, 2)) == 0:
+            # functions depending on constraints, tracer scopes, cross-module backlinks, diamonds ...
+            from vp_harness.gen import families as F
+            fam = F.draw_family(draw, s['modules'])
+            s = F.add(s, fam['A'], draw)
+            family = fam['name']
         variants = []
         for _ in range(3):
             s2 = G.permute_members(s, draw) if draw(st.booleans()) else s
             layout = draw(G.layout_strategy(s2))
             variants.append(dict(schema=s2, layout=layout))
-        return dict(schema=s, variants=variants)
+        return dict(schema=s, variants=variants, family=family)
     return cases()
 
 
@@ -117,8 +124,9 @@ def _run(rec, case):
         text = G.render(v['schema'], v['layout'])
         rec.case({'text': text}, nontrivial=reversed_dep or members_perm, classes=cls,
                  sample=text[:600])
+    fam = f"|family:{case['family']}" if case.get('family') else ''
     for sig, detail, text in out[:1]:
-        rec.violation(sig, {'schema': case['schema'],
+        rec.violation(sig + fam, {'schema': case['schema'], 'family': case.get('family'),
                             'variants': [v for v in case['variants']
                                          if G.render(v['schema'], v['layout']) == text]},
                       detail)
